@@ -237,6 +237,38 @@ def run(rep, tier):
                                    {'op': ln[:400], 'model': o[:300], 'impl': e[:300]})
     probe_threshold(rep, r, 40 if not thorough else 400)
     probe_finder(rep, r, 20 if not thorough else 200)
+    weak_scalar_probe(rep, r, 24 if not thorough else 240)
+
+
+def weak_scalar_probe(rep, r, n):
+    """float32 images whose pixel values lie within one float32 rounding step of a scalar threshold given as a Python float: a pixel is
+    detected iff its value is strictly above the threshold (both real numbers) - the same answer as for the same values held in float64 or
+    for the threshold given as np.float64 (F80: NumPy treats a Python float as a weak scalar and first rounded it to float32)"""
+    from photutils.segmentation import detect_sources
+    for k in range(n):
+        t = float(r.choice([0.1, 0.3, 0.7, 1.1, 2.3, 0.05]) * r.choice([1, 1, 10, 0.5]))
+        t32 = np.float32(t)
+        vals = [t32, np.nextafter(t32, np.float32(np.inf)), np.nextafter(t32, np.float32(-np.inf))]
+        ny, nx = 5, 7
+        img = np.zeros((ny, nx), np.float32)
+        for (y, x) in r.sample([(y, x) for y in range(ny) for x in range(nx)], 8):
+            img[y, x] = r.choice(vals)
+        want = img.astype(np.float64) > t                  # exact: every float32 value is a float64 value
+        for form in ('python-float', 'float64-scalar', 'float64-data'):
+            thr = np.float64(t) if form == 'float64-scalar' else t
+            arr = img.astype(np.float64) if form == 'float64-data' else img
+            with warnings.catch_warnings():
+                warnings.simplefilter('ignore')
+                segm = detect_sources(arr, thr, 1, connectivity=8)
+            got = np.zeros((ny, nx), bool) if segm is None else np.asarray(segm.data) > 0
+            rep.case(('weak-scalar', img.tobytes(), t, form), bool(want.any()) and not bool(want.all()), kind='float32-knife-edge:' + form)
+            rep.probe_only += 1
+            if not np.array_equal(got, want):
+                rep.violation('detect-float32-threshold-rounded', f'detect_sources (float32 image, threshold {t!r} as {form}): detected pixels '
+                              f'{np.argwhere(got).tolist()} but the pixels strictly above the threshold are {np.argwhere(want).tolist()} '
+                              f'(values {sorted(set(float(v) for v in img.ravel() if v))})',
+                              {'data_float32': img.astype(float).tolist(), 'threshold': t, 'form': form, 'npixels': 1})
+                break
 
 
 def probe_threshold(rep, r, n):
